@@ -63,13 +63,37 @@ func strList(l []string) string {
 	return hx.List(it)
 }
 
-// interesting UTF-8 fragments: valid runes of every length, boundaries, and ill-formed pieces
-var utfPieces = []string{
-	"a", "/", "", "\x00", "\x7f", " ", "\u0085", "߿", "ࠀ", "€", "퟿", "", "￿",
-	"\U00010000", "\U0001f600", "\U0010ffff",
-	"\x80", "\xbf", "\xc0\x80", "\xc1\xbf", "\xc2", "\xe0\x80\x80", "\xe0\x9f\xbf", "\xed\xa0\x80", "\xed\xbf\xbf",
-	"\xe2\x82", "\xf0\x80\x80\x80", "\xf0\x8f\xbf\xbf", "\xf4\x90\x80\x80", "\xf5\x80\x80\x80", "\xf0\x9f\x98", "\xff", "\xfe",
+// validRunes: the boundary code points of every encoding length and the special ones.
+var validRunes = []string{
+	"\u0000", "\u007f", "\u0080", "\u07ff", "\u0800", "\ud7ff", "\ue000", "\ufffd", "\ufffe", "\uffff",
+	"\U00010000", "\U0010ffff", "a", "/", "\u0085", "\u00a0", "\u20ac", "\U0001f600",
 }
+
+// invalidPieces: the classic near misses: overlong forms, surrogates, above U+10FFFF, lone
+// continuation bytes, invalid lead bytes (truncations are derived from validRunes).
+var invalidPieces = []string{
+	"\xc0\x80", "\xc1\xbf", "\xe0\x80\x80", "\xe0\x9f\xbf", "\xf0\x80\x80\x80", "\xf0\x8f\xbf\xbf",
+	"\xed\xa0\x80", "\xed\xaf\xbf", "\xed\xb0\x80", "\xed\xbf\xbf", "\xf4\x90\x80\x80", "\xf5\x80\x80\x80",
+	"\x80", "\xbf", "\xfe", "\xff", "\xf8\x88\x80\x80\x80", "\xe2\x28\xa1", "\xf0\x28\x8c\xbc", "\xf0\x90\x28\xbc",
+}
+
+// utfSweep is the deterministic part of the UTF-8 universe: every valid boundary rune alone and
+// embedded, every truncation of it, every near miss alone and embedded.
+func utfSweep() []string {
+	var out []string
+	for _, r := range validRunes {
+		out = append(out, r, "p/"+r+"/v1", r+r, r+"a", "a"+r)
+		for k := 1; k < len(r); k++ {
+			out = append(out, r[:k], "a"+r[:k], r[:k]+"a", r[:k]+r)
+		}
+	}
+	for _, q := range invalidPieces {
+		out = append(out, q, "p/"+q+"/v1", q+"a", "a"+q, "\ufffd"+q, q+"\ufffd")
+	}
+	return out
+}
+
+var utfPieces = append(append([]string{""}, validRunes...), invalidPieces...)
 
 func genUTF(c *hx.Ctx) string {
 	switch c.Rng.Intn(5) {
@@ -78,7 +102,7 @@ func genUTF(c *hx.Ctx) string {
 	case 1: // valid text
 		var sb strings.Builder
 		for i, n := 0, c.Rng.Intn(6); i < n; i++ {
-			sb.WriteString(utfPieces[c.Rng.Intn(16)])
+			sb.WriteString(validRunes[c.Rng.Intn(len(validRunes))])
 		}
 		return sb.String()
 	default: // mostly valid with ill-formed pieces mixed in, sometimes truncated
@@ -94,13 +118,25 @@ func genUTF(c *hx.Ctx) string {
 	}
 }
 
-var spacePieces = []string{" ", "\t", "\n", "\v", "\f", "\r", "\u0085", " ", " ", " ", " ", " ", " ", " ", " ", "　",
-	"a", "|", "b", "\xc2", "\x85", "\xa0", "\xe2\x80", "\xe2", "\x80", "​", "᠎", "\xe1\x9a", "\xe3\x80\x81", "¡", "\x1c", "\x1f", "\x00"}
+// junk returns a non-ASCII fragment (valid boundary rune or near miss) for embedding into other parsers' inputs.
+func junk(c *hx.Ctx) string {
+	if c.Rng.Intn(2) == 0 {
+		return validRunes[c.Rng.Intn(12)]
+	}
+	return invalidPieces[c.Rng.Intn(len(invalidPieces))]
+}
+
+var spacePieces = []string{" ", "\t", "\n", "\v", "\f", "\r", "\u0085", "\u00a0", "\u1680", "\u2000", "\u2003", "\u200a", "\u2028", "\u2029", "\u202f", "\u205f", "\u3000",
+	"a", "|", "b", "\xc2", "\x85", "\xa0", "\xe2\x80", "\xe2", "\x80", "\u200b", "\u180e", "\xe1\x9a", "\u3001", "\u00a1", "\x1c", "\x1f", "\x00", "\ufeff", "\ufffd"}
 
 func genSpaced(c *hx.Ctx) string {
 	var sb strings.Builder
 	for i, n := 0, c.Rng.Intn(7); i < n; i++ {
-		sb.WriteString(spacePieces[c.Rng.Intn(len(spacePieces))])
+		if c.Rng.Intn(6) == 0 {
+			sb.WriteString(junk(c))
+		} else {
+			sb.WriteString(spacePieces[c.Rng.Intn(len(spacePieces))])
+		}
 	}
 	return sb.String()
 }
@@ -115,8 +151,14 @@ func c38(c *hx.Ctx) {
 	c.Rule = "per parser: random bytes, structured near-valid strings and adversarial ones (ill-formed UTF-8 of every kind, Unicode white space and fragments of it, separators in every position, duplicate/whitespace-padded/malformed address entries over 3 peers x 4 addresses, durations/timestamps/urls/regexps/peer ids valid and damaged); panics captured; non-trivial = an accepted, non-empty input"
 	unit := c.N / 10
 	// ---- utf8.ValidString (tie for Lib/Utf8) and ParseProtocolID ----
-	for i := 0; i < 2*unit; i++ {
-		s := genUTF(c)
+	sweep := utfSweep()
+	for i := 0; i < len(sweep)+2*unit; i++ {
+		var s string
+		if i < len(sweep) {
+			s = sweep[i] // every boundary code point / near miss, alone and embedded, in every run
+		} else {
+			s = genUTF(c)
+		}
 		v := utf8.ValidString(s)
 		c.Class(fmt.Sprintf("utf8-%v", v))
 		c.Case(hx.App("Utf", hx.Str(s), hx.Bool(v)), map[string]any{"parser": "utf8.ValidString", "s": hx.Hex([]byte(s)), "valid": v})
@@ -149,7 +191,7 @@ func c38(c *hx.Ctx) {
 	for i := 0; i < unit/2; i++ {
 		n := c.Rng.Intn(5)
 		l := make([]string, n)
-		pool := []string{"a", "b", "a", "p/x", "", "\xff", "€"}
+		pool := []string{"a", "b", "a", "p/x", "", "\xff", "\u20ac", "\ufffd", "x\ufffdy", "\ufffd", "\xed\xa0\x80", "\u0000", "\U0010ffff"}
 		for j := range l {
 			if c.Rng.Intn(6) == 0 {
 				l[j] = genUTF(c)
@@ -205,7 +247,11 @@ func c38(c *hx.Ctx) {
 		default:
 			al := []string{"a", "|", "b", " ", "udp", "1.2.3.4:5"}
 			for j, n := 0, c.Rng.Intn(6); j < n; j++ {
-				s += al[c.Rng.Intn(len(al))]
+				if c.Rng.Intn(5) == 0 {
+					s += junk(c) // boundary code points and ill-formed bytes around the delimiter
+				} else {
+					s += al[c.Rng.Intn(len(al))]
+				}
 			}
 		}
 		var tid, addr string
@@ -246,7 +292,7 @@ func c38(c *hx.Ctx) {
 	peers := []string{fk.PeerID("p1").String(), fk.PeerID("p2").String(), fk.PeerID("p3").String()}
 	addrs := []string{"t|a", "t|b", "u|a", "t|a|x"}
 	badPeers := []string{"", "zzz", "0OIl", peers[0][:len(peers[0])-1], "11", peers[1] + "x"}
-	ws := []string{"", "", " ", "\t", " \n", " ", " "}
+	ws := []string{"", "", " ", "\t", " \n", "\u00a0", "\u2003", "\u3000 "}
 	for i := 0; i < 2*unit; i++ {
 		n := c.Rng.Intn(9)
 		entries := make([]string, n)
@@ -279,6 +325,10 @@ func c38(c *hx.Ctx) {
 				entries[j] = string(c.RandBytes(c.Rng.Intn(10)))
 			case 4:
 				entries[j] = p + "|" + w() + "|" + w() // empty parts
+			case 5:
+				entries[j] = w() + p + w() + "|" + w() + "t|" + junk(c) + w() // non-ASCII / ill-formed address
+			case 6:
+				entries[j] = w() + p + junk(c) + "|" + a // junk glued to the peer id
 			default:
 				entries[j] = w() + p + w() + "|" + w() + a + w()
 			}
